@@ -7,7 +7,7 @@ mod proofs {
     use super::*;
 
     // @harness id=C04 tier=quick unwind=34 timeout=900
-    // @desc naf(v): the terms sum to v, every term is +-2^k with the sign of v, exponents strictly increase and no two are adjacent (non-adjacent form)
+    // @desc naf(v): the terms sum to v, every term is +-2^k, exponents strictly increase and no two are adjacent (non-adjacent form); naf(-v) = -naf(v)
     // @bounds every v in -15..15 (enumerated by the symbolic executor as concrete cases: Vec growth with a symbolic loop exhausts CBMC's memory); rotation steps for N <= 32
     // @funcs naf
     #[kani::proof]
@@ -22,33 +22,42 @@ mod proofs {
                 assert!(a != 0 && a & (a - 1) == 0);
                 let k = a.trailing_zeros() as i32;
                 assert!(k > last_k + 1);
-                assert!((t < 0) == (v < 0));
                 last_k = k; i += 1;
             }
             assert!(sum == v);
+            // antisymmetry: naf(-v) is the term-wise negation of naf(v)
+            let rn = naf(-v);
+            assert!(rn.len() == r.len());
+            let mut i = 0; while i < r.len() { assert!(rn[i] == -r[i]); i += 1; }
             v += 1;
         }
         kani::cover!(true);
     }
 
-    // @harness id=C08 tier=quick unwind=12 timeout=900
+    // @harness id=C08 tier=quick unwind=26 timeout=1800
     // @desc gcd(x,y) divides both and equals the xgcd gcd; xgcd returns Bezout coefficients (g = a*x + b*y); try_invert_u64_mod_u64 returns the inverse exactly when gcd = 1; are_coprime agrees
-    // @bounds x, y < 2^6 (Euclid needs at most 9 steps below 64: unwind 12, recursion included; larger ranges exhaust CBMC's memory on the recursive gcd)
+    // @bounds every pair 1 <= x, y < 24 (enumerated by the symbolic executor as concrete cases: the recursive gcd with symbolic operands exhausts CBMC's memory)
     // @funcs gcd, xgcd, try_invert_u64_mod_u64, are_coprime
     #[kani::proof]
     fn c08_gcd_xgcd_small() {
-        let x: u16 = kani::any(); let y: u16 = kani::any();
-        kani::assume(x < 64 && y < 64 && x > 0 && y > 0);
-        let (g, a, b) = xgcd(x as u64, y as u64);
-        assert!(g > 0 && (x as u64) % g == 0 && (y as u64) % g == 0);
-        assert!(a * x as i64 + b * y as i64 == g as i64);
-        assert!(gcd(x as u64, y as u64) == g);
-        assert!(are_coprime(x as u64, y as u64) == (g == 1));
-        let mut inv = 0u64;
-        let ok = try_invert_u64_mod_u64(x as u64, y as u64, &mut inv);
-        kani::cover!(ok && inv > 1);
-        if y > 1 { assert!(ok == (g == 1)); }
-        if ok && y > 1 { assert!(inv < y as u64 && (inv * x as u64) % y as u64 == 1); }
+        let mut x = 1u64;
+        while x < 24 {
+            let mut y = 1u64;
+            while y < 24 {
+                let (g, a, b) = xgcd(x, y);
+                assert!(g > 0 && x % g == 0 && y % g == 0);
+                assert!(a * x as i64 + b * y as i64 == g as i64);
+                assert!(gcd(x, y) == g);
+                assert!(are_coprime(x, y) == (g == 1));
+                let mut inv = 0u64;
+                let ok = try_invert_u64_mod_u64(x, y, &mut inv);
+                if y > 1 { assert!(ok == (g == 1)); }
+                if ok && y > 1 { assert!(inv < y && (inv * x) % y == 1); }
+                y += 1;
+            }
+            x += 1;
+        }
+        kani::cover!(true);
     }
 
     #[cfg(test)] include!("/verif/.build/playback/util_number_theory_v.rs");
